@@ -84,6 +84,8 @@ Init(role, cfg) ==
      illegalSeen |-> FALSE,
      inCount |-> 0,          \* frames E has read
      batchStart |-> 0,       \* inCount before the latest transport read (E may be reacting to any frame of the latest batch)
+     gracefulReq |-> FALSE,  \* the application asked for a graceful shutdown (the endpoint goes on processing frames)
+     myPings |-> <<>>,       \* payloads of the PINGs E sent that the peer has not acknowledged yet
      connWhy |-> "",         \* what made the first connection error of the peer
      lastStreamIllegal |-> -1,   \* inCount of the latest frame that was a stream error (or completed a malformed prefix)
      v |-> <<>>, hits |-> EmptyMap]
@@ -208,6 +210,7 @@ OutAcks(m, f, l) ==
     THEN IF m.pongs = <<>> \/ Head(m.pongs) # f.pl
          THEN Viol(Hit(m, "C14.pong"), "C14.pong", l, 0, "PING ACK unsolicited or out of order")
          ELSE [Hit(m, "C14.pong") EXCEPT !.pongs = Tail(m.pongs)]
+    ELSE IF f.ty = "PING" THEN [m EXCEPT !.myPings = Append(m.myPings, f.pl)]
     ELSE IF f.ty = "PUSH_PROMISE"
     THEN Check(m, "C14.push_disabled", m.pa.push # 0, l, f.sid, "PUSH_PROMISE after acknowledging ENABLE_PUSH=0")
     ELSE m
@@ -396,7 +399,9 @@ PrefixMalformed(m, f) ==
     \/ \E i \in 1..Len(cls) : m.role = "c" /\ f.ty # "PUSH_PROMISE" /\ PKind(cls[i]) \in {":method", ":scheme", ":path", ":authority", ":protocol"}
 
 NoteIn(m, f, l) ==
-    LET c == IF m.mustConn \/ m.dead THEN "legal" ELSE Classify(m, f)   \* nothing is judged after the first connection error
+    \* nothing is judged after the first connection error, nor once the transport is gone (a GOAWAY of the peer does not
+    \* end the duty to judge: the connection lives on until the streams in flight are done)
+    LET c == IF m.mustConn \/ m.ended \/ (m.killed /\ ~m.gracefulReq) THEN "legal" ELSE Classify(m, f)
         m0 == IF f.ty \in {"HEADERS", "PUSH_PROMISE", "CONTINUATION"} /\ ~f.eh /\ f.pcls # <<>> /\ PrefixMalformed(m, f)
               THEN [m EXCEPT !.illegalSeen = TRUE, !.lastStreamIllegal = m.inCount + 1, !.inCount = m.inCount + 1]
               ELSE [m EXCEPT !.inCount = m.inCount + 1]
@@ -446,6 +451,7 @@ StepIn(m, f, l) ==
                                       IF la2.iws < m.la.iws /\ mm.st[y].i = "open" /\ SatAdd(Max(la2.iws, 0), mm.st[y].rsw) <= 0
                                       THEN [mm.st[y] EXCEPT !.zeroed = TRUE] ELSE mm.st[y]]]
     ELSE IF ty = "PING" /\ ok /\ ~f.ack THEN [mm EXCEPT !.pongs = Append(m.pongs, f.pl)]
+    ELSE IF ty = "PING" /\ ok /\ f.ack THEN [mm EXCEPT !.myPings = SelectSeq(m.myPings, LAMBDA p : p # f.pl)]
     ELSE IF ty = "WINDOW_UPDATE" /\ ok
     THEN IF f.inc = 0 THEN [mm EXCEPT !.tainted = TRUE]
          ELSE IF s = 0
@@ -552,7 +558,7 @@ StepApi(m, e, l) ==
     THEN Check(m, "C14.local_settings_pending", m.sentSet = <<>>, l, 0, "second local SETTINGS accepted while one is unacknowledged")
     ELSE IF c = "conn_poll" /\ e.res \in {"ok", "err"} THEN [m EXCEPT !.ended = TRUE, !.err = m.err \/ e.res = "err"]
     ELSE IF c = "conn_drop" THEN [m EXCEPT !.ended = TRUE, !.err = TRUE, !.killed = TRUE]
-    ELSE IF c = "graceful_shutdown" THEN [m EXCEPT !.dead = TRUE, !.killed = TRUE]
+    ELSE IF c = "graceful_shutdown" THEN [m EXCEPT !.dead = TRUE, !.killed = TRUE, !.gracefulReq = TRUE]
     ELSE IF c \in {"abrupt_shutdown", "conn_drop"} THEN [m EXCEPT !.dead = TRUE, !.err = TRUE, !.killed = TRUE]
     ELSE IF c = "conn_poll" /\ e.res = "err" THEN [m EXCEPT !.ended = TRUE, !.err = TRUE]
     ELSE m
